@@ -319,29 +319,46 @@ def rule_fresh_default(ctx, tainted) -> None:
 
 
 def rule_hab_dek(ctx, tainted) -> None:
-    """C17.hab-dek: unless the user asked to re-use an existing DEK, the HAB DEK is an RNG draw (never read back from a file)."""
+    """C17.hab-dek: unless the user asked to re-use an existing DEK, the HAB DEK is an RNG draw (never read back from a file).
+    Decided on the symbolic paths of the function: every path that returns a key without the re-use request being set returns a
+    value whose outermost call is an RNG draw."""
+    from ..engines import ordereval
     rp = "spsdk/image/hab/segments.py"
     fn = ctx.own(rp, "CsfHabSegment", "get_dek_from_config")
-    ifs = [n for n in A.walk_no_nested(fn.node) if isinstance(n, ast.If) and "reuse_dek" in norm(n.test)]
-    if len(ifs) != 1:
+
+    def reuse_requested(q) -> Optional[bool]:
+        """Truth of 'the configuration asks for DEK re-use' on path q (None: the path does not depend on it)."""
+        for text, pol in q.conds:
+            if "ReuseDek" not in text:
+                continue
+            vals = []
+            for setting in (1, 0):
+                def cv(c: ast.Call, ev, setting=setting):
+                    if isinstance(c.func, ast.Attribute) and c.func.attr == "get" and c.args and "ReuseDek" in norm(c.args[0]):
+                        return setting
+                    return ordereval.NOT_MODELLED
+                try:
+                    vals.append(bool(ordereval.Evaluator({}, None, call_value=cv).ev(ast.parse(text, mode="eval").body)))
+                except ordereval.Unsupported as ex:
+                    raise AnalysisError(f"C17.hab-dek: unrecognised reuse test `{text}`: {ex}")
+            if vals[0] == vals[1]:
+                raise AnalysisError(f"C17.hab-dek: reuse test `{text}` does not depend on the setting")
+            return vals[0] == pol
+        return None
+    paths = [q for q in A.spaths(fn.node) if q.end == "return" and q.value is not None and not (isinstance(q.value, ast.Constant) and q.value.value is None)]
+    if not any(reuse_requested(q) is True for q in paths):
         raise AnalysisError("C17.hab-dek: the reuse_dek decision was not found")
-    iff = ifs[0]
-    t = norm(iff.test)
-    fresh_branch = iff.orelse if t == "reuse_dek" else iff.body if t in ("not reuse_dek",) else None
-    if fresh_branch is None:
-        raise AnalysisError(f"C17.hab-dek: unrecognised reuse test `{t}`")
-    mod = ast.Module(body=fresh_branch, type_ignores=[])
-    rets_after = [r for r in A.returns_in(fn.node) if r.lineno > iff.lineno and not any(r is x for x in ast.walk(iff))]
-    var = norm(rets_after[-1].value) if rets_after and rets_after[-1].value is not None else None
-    bad = []
-    for n in A.walk_no_nested(mod):
-        if isinstance(n, ast.Return) and n.value is not None and not t_calls(ctx, tainted, fn.module, fn.cls, n.value):
-            bad.append(norm(n))
-        if isinstance(n, ast.Assign) and var and norm(n.targets[0]) == var and not t_calls(ctx, tainted, fn.module, fn.cls, n.value):
-            bad.append(norm(n))
-    has_fresh = any(isinstance(n, ast.Assign) and var and norm(n.targets[0]) == var and t_calls(ctx, tainted, fn.module, fn.cls, n.value) for n in A.walk_no_nested(mod))
-    ctx.chk.decide(not bad and has_fresh, "C17.hab-dek", fn.qual + " (reuse not requested)", f"every value of `{var}` leaving the branch is an RNG draw",
-                   f"a DEK that is not freshly drawn leaves the not-reuse branch: {bad[0] if bad else 'no RNG draw found'}", f"{var} = random_bytes(key_length)", A.loc(rp, iff))
+    bad, fresh = [], 0
+    for q in paths:
+        if reuse_requested(q) is True:
+            continue
+        v = q.value
+        if isinstance(v, ast.Call) and v in t_calls(ctx, tainted, fn.module, fn.cls, v):
+            fresh += 1
+        else:
+            bad.append(q.vtext[:100])
+    ctx.chk.decide(not bad and fresh > 0, "C17.hab-dek", fn.qual + " (reuse not requested)", f"every key returned without a re-use request is an RNG draw ({fresh} path(s))",
+                   f"a DEK that is not freshly drawn is returned although re-use was not requested: {bad[0] if bad else 'no RNG draw found'}", "random_bytes(key_length)", A.loc(rp, fn.node))
 
 
 def rule_routing(ctx, tainted) -> None:
